@@ -490,7 +490,7 @@ def job_cpm_probe():
 
 def jobs(tier, seed):
     depth = 6 if tier == "quick" else 7
-    k = 1 if tier == "quick" else 40
+    k = 1 if tier == "quick" else 20
     js = [{"fn": "vf.props.c18:job_bfs", "args": {"depth": depth, "shard": s, "nshards": 13}} for s in range(13)]
     js += [{"fn": "vf.props.c18:job_random", "args": {"n": 400 * k, "seed": seed * 1000 + s}} for s in range(3)]
     js += [{"fn": "vf.props.c18:job_loops", "args": {"n": 40 * k, "seed": seed * 1000 + 10 + s}} for s in range(3)]
